@@ -105,7 +105,7 @@ func c08(c *Ctx) {
 				readIdx = i
 			}
 		}
-		hasPayload := rem != nil && knowsGe(p, call.NLits, 1, is(rem))
+		hasPayload := rem != nil && knowsGe(p, call.NLits, 1, isW(p.X, rem))
 		if hasPayload {
 			last := reads[len(reads)-1]
 			if len(reads) < 2 || strip(last.Args[1]) != strip(rem) {
